@@ -210,7 +210,10 @@ class _RootNameCollector(cst.CSTVisitor):
             if self._in_target == 0:
                 self.names.add(chain[0])
             return False
-        return True
+        # The receiver is not a plain name (``type(x).__name__``, ``f(x).attr``):
+        # only the receiver expression reads variables, ``attr`` is a member name.
+        node.value.visit(self)
+        return False
 
     def visit_Name(self, node: cst.Name) -> bool:  # noqa: N802
         if self._in_target == 0:
